@@ -175,6 +175,55 @@ def _callers(ctx: Ctx, ro: FuncInfo) -> None:
                                f"`{ast.unparse(el)}` groups test and "
                                "training settings for one kind of run",
                                construct="settings grouped per run kind")
+    # ---- a setting the caller holds is not left to the callee's default
+    odem = repo.module(ro.module.name)
+    helpers = [odem.funcs.get(nm) for nm in (
+        "run_ode", "multi_run_ode", "j_from_ode", "diff_from_ode",
+        "t_from_ode")]
+    helpers = [h for h in helpers if h is not None]
+    n_def = 0
+    from sa.srcmodel import bound_args
+    for fi in repo.all_funcs():
+        if not fi.module.name.startswith("moptipyapps.dynamic_control"):
+            continue
+        held = set(fi.params)
+        for st in ast.walk(fi.node):
+            if isinstance(st, ast.Name) and isinstance(st.ctx, ast.Store):
+                held.add(st.id)
+        fields: set[str] = set()
+        if fi.cls is not None:
+            init = repo.lookup_method(fi.cls, "__init__")
+            for st in ast.walk(init.node) if init else []:
+                if isinstance(st, ast.Attribute) and isinstance(
+                        st.ctx, ast.Store) and isinstance(
+                        st.value, ast.Name) and st.value.id == "self":
+                    fields.add(st.attr.lstrip("_").split("__")[-1])
+        for c in ast.walk(fi.node):
+            if not isinstance(c, ast.Call):
+                continue
+            callee = repo.resolve_expr(fi.module, c.func)
+            if callee not in helpers or callee is fi:
+                continue
+            a_ = callee.node.args
+            n_pos = len(a_.posonlyargs) + len(a_.args)
+            defaulted = [x.arg for x in (a_.posonlyargs + a_.args)[
+                n_pos - len(a_.defaults):]]
+            got = bound_args(c, list(callee.params))
+            for p_ in defaulted:
+                if p_ in got:
+                    continue
+                n_def += 1
+                has = p_ in held or p_ in fields
+                ctx.ob("D10.9", fi, c, not has,
+                       f"{fi.qualname}: {callee.name}(...) leaves `{p_}` "
+                       "to its default; the caller holds no setting of "
+                       "that name" if not has else
+                       f"{fi.qualname} holds a setting `{p_}` but calls "
+                       f"{callee.name}(...) without it: the run uses the "
+                       f"default {p_} of {callee.name}, not the caller's",
+                       construct=f"{callee.name} default {p_} in "
+                                 f"{fi.qualname}", nontrivial=False)
+    ctx.count("defaulted_settings", n_def)
     ctx.count("simulation_call_sites", n_calls)
     ctx.ob("D10.9", ro, ro.node, n_calls >= 3,
            f"{n_calls} call sites of run_ode / multi_run_ode inspected "
